@@ -16,6 +16,8 @@ from ..anf import R, Unsupported
 from .. import anf
 from .common import struct_ob, formula_ob, guard, last_return, U
 from ..report import AnalysisError, Ob
+from ..term import Resolver, pmatch, find_all, abstract, anf_of
+from ..seq import Layouts, UNKNOWN, show
 
 COV = "inference/gp/covariance.py"
 MEAN = "inference/gp/mean.py"
@@ -156,14 +158,11 @@ def run(prog, tier):
     # heteroscedastic: grads = [s * dk for s, dk in zip(sigma_sq, self.dK)], dK[i] = 2 E_ii
     ci = prog.cls("HeteroscedasticNoise")
     cag = ci.methods["covariance_and_gradients"]
-    txt = U(cag)
-    psd = U(ci.methods["pass_spatial_data"])
-    ok = ("grads = [s * dk for s, dk in zip(sigma_sq, self.dK)]" in txt and "sigma_sq = exp(2 * theta)" in txt
-          and "K = diag(sigma_sq)" in txt and "A[i, i] = 2.0" in psd and "A = zeros([self.n_params, self.n_params])" in psd
-          and "self.dK.append(A)" in psd and "for i in range(self.n_params)" in psd)
+    psd_fn = ci.methods["pass_spatial_data"]
+    ok, why = _hetero(prog, ci, cag, psd_fn)
     obs.append(struct_ob("gradient-is-derivative", qual(ci, cag) + "[log-sigma_i]", ok,
                          "d diag(exp(2 theta)) / d theta_i = 2 exp(2 theta_i) E_ii: gradients must pair sigma_sq[i] with the matrix "
-                         "holding 2.0 at (i, i), in parameter order", COV, cag.lineno))
+                         "holding 2.0 at (i, i), in parameter order: " + why, COV, cag.lineno))
 
     # ---------------------------------------------------------------- logistic and its gradient
     cp = prog.cls("ChangePoint")
@@ -339,60 +338,180 @@ def _changepoint(prog, cp):
     return out
 
 
+def _hetero(prog, ci, cag, psd_fn):
+    """grads[i] = sigma_sq[i] * dK[i] in parameter order, dK[i] a fresh zero matrix with 2.0 at (i, i)."""
+    why = []
+    th = cag.args.args[1].arg
+    L = Layouts(cag, prog, ci.module, ci)
+    rets = L.rz.return_terms()
+    g = None
+    for name, lay in L.state.items():
+        if lay == (("each", ("iter", f"zip(exp(2 * {th}), self.dK)"), "va0 * va1"),) or lay == (("each", ("iter", f"zip(self.dK, exp(2 * {th}))"), "va0 * va1"),):
+            g = name
+    if g is None:
+        why.append("no gradient list of the form [s * dk for s, dk in zip(exp(2 theta), self.dK)]: " + "; ".join(f"{k} = {show(v)}" for k, v in L.state.items()))
+    ok_ret = len(rets) == 1 and isinstance(rets[0], ast.Tuple) and len(rets[0].elts) == 2 \
+        and pmatch(rets[0].elts[0], f"diag(exp(2 * {th}))") is not None
+    if not ok_ret:
+        why.append(f"returned value is `{U(rets[0])[:200] if rets else None}`, expected (diag(exp(2 theta)), gradient list)")
+    elif g is not None and U(L.rz.returns()[0].value.elts[1]) != g and L.layout_of(L.rz.returns()[0].value.elts[1], L.rz.returns()[0]) != L.state[g]:
+        why.append("the returned gradient list is not the paired list")
+    # dK: one fresh matrix per parameter with the single entry (i, i) = 2
+    P = Layouts(psd_fn, prog, ci.module, ci)
+    dk = P.state.get("self.dK")
+    loops = [l for l in psd_fn.body if isinstance(l, ast.For) and any(isinstance(n, ast.Call) and U(n.func) == "self.dK.append" for n in ast.walk(l))]
+    okd = False
+    if dk is not None and dk is not UNKNOWN and len(dk) == 1 and dk[0][0] == "each" and dk[0][1] == ("iter", "range(self.n_params)") and len(loops) == 1:
+        mat = dk[0][2]
+        lp = loops[0]
+        iv = U(lp.target)
+        fresh = [st for st in lp.body if isinstance(st, ast.Assign) and U(st.targets[0]) == mat
+                 and (pmatch(st.value, "zeros([self.n_params, self.n_params])") is not None or pmatch(st.value, "zeros((self.n_params, self.n_params))") is not None)]
+        stores = [st for st in ast.walk(lp) if isinstance(st, (ast.Assign, ast.AugAssign)) and isinstance(getattr(st, "targets", [getattr(st, "target", None)])[0], ast.Subscript)
+                  and U(getattr(st, "targets", [getattr(st, "target", None)])[0].value) == mat]
+        okd = (len(fresh) == 1 and len(stores) == 1 and isinstance(stores[0], ast.Assign) and U(stores[0].targets[0].slice) == f"({iv}, {iv})"
+               and isinstance(stores[0].value, ast.Constant) and float(stores[0].value.value) == 2.0)
+    if not okd:
+        why.append(f"self.dK is not [zero matrix with 2.0 at (i, i) for i in range(n_params)], built fresh per parameter: {show(dk)}")
+    return not why, "; ".join(why)
+
+
 def _composite(prog):
     out = []
     cc = prog.cls("CompositeCovariance")
     want = {
-        "__call__": "sum((comp(u, v, theta[slc]) for comp, slc in zip(self.components, self.slices)))",
-        "build_covariance": "sum((comp.build_covariance(theta[slc]) for comp, slc in zip(self.components, self.slices)))",
+        "__call__": "{c}({a}, {b}, {t}[{s}])",
+        "build_covariance": "{c}.build_covariance({t}[{s}])",
     }
     for mname, w in want.items():
         fn = cc.methods.get(mname)
-        ret = last_return(fn)
-        ok = ret is not None and U(ret.value) == w
+        rz = Resolver(fn, prog, cc.module, cc)
+        rets = rz.return_terms()
+        params = [a.arg for a in fn.args.args[1:]]
+        elt = w.format(c="_c", s="_s", t=params[-1], a=params[0] if len(params) > 1 else "", b=params[1] if len(params) > 1 else "")
+        ok = len(rets) == 1 and any(pmatch(rets[0], pt) is not None for pt in
+                                    (f"sum(({elt} for _c, _s in zip(self.components, self.slices)))",
+                                     f"sum([{elt} for _c, _s in zip(self.components, self.slices)])"))
         out.append(struct_ob("composite-structure", qual(cc, fn), ok,
-                             f"a sum of kernels must add each component evaluated on its own slice of theta: `{U(ret.value) if ret else None}`",
+                             f"a sum of kernels must add each component evaluated on its own slice of theta: `{U(rets[0]) if rets else None}`",
                              COV, fn.lineno))
     fn = cc.methods.get("covariance_and_gradients")
-    txt = U(fn)
-    ok = ("comp.covariance_and_gradients(theta[slc]) for comp, slc in zip(self.components, self.slices)" in txt
-          and "K = sum((r[0] for r in results))" in txt and "[gradients.extend(r[1]) for r in results]" in txt
-          and "return (K, gradients)" in txt)
-    out.append(struct_ob("composite-structure", qual(cc, fn), ok,
-                         "value = sum of component values; gradients = component gradient lists concatenated in component order", COV, fn.lineno))
+    th = fn.args.args[1].arg
+    L = Layouts(fn, prog, cc.module, cc)
+    res = [k for k, v in L.state.items() if v == (("each", ("iter", "zip(self.components, self.slices)"), f"va0.covariance_and_gradients({th}[va1])"),)]
+    why = []
+    if len(res) != 1:
+        why.append("no list of per-component (value, gradients) results over zip(self.components, self.slices): "
+                   + "; ".join(f"{k} = {show(v)}" for k, v in L.state.items()))
+    else:
+        r0 = res[0]
+        gl = [k for k, v in L.state.items() if v == (("flat", ("iter", r0), (("splice", "va0[1]"),)),)]
+        rets = L.rz.returns()
+        okr = False
+        if len(rets) == 1 and isinstance(rets[0].value, ast.Tuple) and len(rets[0].value.elts) == 2:
+            kv = L.rz.term(rets[0].value.elts[0], rets[0], keep=(r0,))
+            okk = any(pmatch(kv, pt) is not None for pt in (f"sum((_r[0] for _r in {r0}))", f"sum([_r[0] for _r in {r0}])"))
+            gv = L.layout_of(rets[0].value.elts[1], rets[0])
+            okr = okk and gv == (("flat", ("iter", r0), (("splice", "va0[1]"),)),)
+            if not okr:
+                why.append(f"returned value `{U(kv)[:150]}`, gradient layout {show(gv)}")
+        else:
+            why.append("return is not (K, gradients)")
+    out.append(struct_ob("composite-structure", qual(cc, fn), not why,
+                         "value = sum of component values; gradients = component gradient lists concatenated in component order: "
+                         + "; ".join(why), COV, fn.lineno))
     # composition order: slices, labels, bounds built over self.components in order
     psd = cc.methods.get("pass_spatial_data")
-    txt = U(psd)
-    ok = ("self.slices = slice_builder([c.n_params for c in self.components])" in txt
-          and "for i, comp in enumerate(self.components):" in txt and "self.hyperpar_labels.extend(labels)" in txt)
-    out.append(struct_ob("composition-order", qual(cc, psd), ok, "slices and labels must be built over the components in order", COV, psd.lineno))
+    L = Layouts(psd, prog, cc.module, cc)
+    sl = [L.rz.term(st.value, st) for st in ast.walk(psd) if isinstance(st, ast.Assign) and U(st.targets[0]) == "self.slices"]
+    ok_s = len(sl) == 1 and pmatch(sl[0], "slice_builder([_c.n_params for _c in self.components])") is not None
+    lab = L.state.get("self.hyperpar_labels")
+    ok_l = (lab is not None and lab is not UNKNOWN and len(lab) == 1 and lab[0][0] == "flat" and lab[0][1][1] == "self.components"
+            and len(lab[0][2]) == 1 and lab[0][2][0][0] == "each"
+            and lab[0][2][0][1] == ("iter", ("va1" if lab[0][1][0] == "enum" else "va0") + ".hyperpar_labels") and "vb0" in lab[0][2][0][2])
+    out.append(struct_ob("composition-order", qual(cc, psd), ok_s and ok_l,
+                         f"slices and labels must be built over the components in order: slices ok {ok_s} "
+                         f"(`{U(sl[0])[:120] if sl else None}`); labels = {show(lab)}", COV, psd.lineno))
     eb = cc.methods.get("estimate_hyperpar_bounds")
-    ok = "[self.bounds.extend(comp.bounds) for comp in self.components]" in U(eb)
-    out.append(struct_ob("composition-order", qual(cc, eb), ok, "bounds must be concatenated over the components in order", COV, eb.lineno))
-    add = prog.cls("CovarianceFunction").methods.get("__add__")
-    ok = "return CompositeCovariance([*K1, *K2])" in U(add)
-    out.append(struct_ob("composition-order", qual(prog.cls("CovarianceFunction"), add), ok,
-                         "k1 + k2 must keep the left operand's components first", COV, add.lineno))
+    L = Layouts(eb, prog, cc.module, cc)
+    b = L.state.get("self.bounds")
+    ok = b == (("flat", ("iter", "self.components"), (("splice", "va0.bounds"),)),)
+    out.append(struct_ob("composition-order", qual(cc, eb), ok, f"bounds must be concatenated over the components in order: {show(b)}", COV, eb.lineno))
+    base = prog.cls("CovarianceFunction")
+    add = base.methods.get("__add__")
+    ra = Resolver(add, prog, base.module, base)
+    rets = ra.return_terms()
+    oth = add.args.args[1].arg
+    ok = len(rets) == 1 and pmatch(rets[0], f"CompositeCovariance([*(self.components if isinstance(self, CompositeCovariance) else [self]), "
+                                            f"*({oth}.components if isinstance({oth}, CompositeCovariance) else [{oth}])])") is not None
+    out.append(struct_ob("composition-order", qual(base, add), ok,
+                         f"k1 + k2 must keep the left operand's components first: `{U(rets[0])[:200] if rets else None}`", COV, add.lineno))
     sb = prog.function(COV, "slice_builder")
-    txt = [U(s) for s in sb.body if not (isinstance(s, ast.Expr) and isinstance(s.value, ast.Constant))]
-    ok = txt == ["slices = [slice(0, lengths[0])]",
-                 "for L in lengths[1:]:\n    last = slices[-1].stop\n    slices.append(slice(last, last + L))", "return slices"]
+    L = Layouts(sb, prog, prog.module(COV), None)
+    rets = L.rz.returns()
+    ln = sb.args.args[0].arg
+    lay = L.layout_of(rets[0].value, rets[0]) if len(rets) == 1 else None
+    name = U(rets[0].value) if len(rets) == 1 else "?"
+    ok = lay in ((("item", f"slice(0, {ln}[0])"), ("each", ("iter", f"{ln}[1:]"), f"slice({name}[-1].stop, {name}[-1].stop + va0)")),)
     out.append(struct_ob("composition-order", "inference.gp.covariance.slice_builder", ok,
-                         f"slices must be contiguous: start_(k+1) = stop_k, length = the component's parameter count: {txt}", COV, sb.lineno))
+                         f"slices must be contiguous: start_(k+1) = stop_k, length = the component's parameter count: {show(lay)}", COV, sb.lineno))
     # change-point layout: kernels first, then (location, width) pairs; bounds interleaved the same way
     cp = prog.cls("ChangePoint")
-    psd = U(cp.methods["pass_spatial_data"])
-    ehb = U(cp.methods["estimate_hyperpar_bounds"])
-    ok = ("param_counts = [K.n_params for K in self.cov]" in psd and "param_counts.extend([2] * (self.n_kernels - 1))" in psd
-          and "self.cov_slc = slices[:self.n_kernels]" in psd and "self.cp_slc = slices[self.n_kernels:]" in psd
-          and "label_groups.append([f'ChngPnt{i} location', f'ChngPnt{i} width'])" in psd
-          and "chain.from_iterable(zip(self.location_bounds, self.width_bounds))" in ehb
-          and "for cov in self.cov:" in ehb and "self.bounds.extend(cov.bounds)" in ehb)
-    lg = U(cp.methods["logistic"])
-    ok = ok and "z = (x - theta[0]) / theta[1]" in lg
-    out.append(struct_ob("composition-order", qual(cp, cp.methods["pass_spatial_data"]), ok,
+    psd = cp.methods["pass_spatial_data"]
+    L = Layouts(psd, prog, cp.module, cp)
+    why = []
+    counts = [k for k, v in L.state.items() if v == (("each", ("iter", "self.cov"), "va0.n_params"), ("rep", (("item", "2"),), "self.n_kernels - 1"))]
+    if len(counts) != 1:
+        why.append("parameter counts are not [K.n_params for K in self.cov] + [2] * (n_kernels - 1): "
+                   + "; ".join(f"{k} = {show(v)}" for k, v in L.state.items() if "label" not in k))
+    else:
+        pc = counts[0]
+        for attr, sl_ in (("cov_slc", "[:self.n_kernels]"), ("cp_slc", "[self.n_kernels:]")):
+            t = [L.rz.term(st.value, st, keep=(pc,)) for st in ast.walk(psd) if isinstance(st, ast.Assign) and U(st.targets[0]) == f"self.{attr}"]
+            if not (len(t) == 1 and pmatch(t[0], f"slice_builder({pc}){sl_}") is not None):
+                why.append(f"self.{attr} is `{U(t[0]) if t else None}`, expected slice_builder(counts){sl_}")
+    lab = L.state.get("self.hyperpar_labels")
+    groups = None
+    if lab is not None and lab is not UNKNOWN and len(lab) == 1 and lab[0][0] == "flat" and lab[0][2] == (("splice", "va0"),):
+        groups = L.state.get(lab[0][1][1])
+    okg = (groups is not None and groups is not UNKNOWN and len(groups) == 2
+           and groups[0][0] == "each" and groups[0][1][1] == "self.cov" and ".hyperpar_labels" in groups[0][2]
+           and groups[1][0] == "each" and groups[1][1] == ("iter", "range(self.n_kernels - 1)"))
+    if okg:
+        try:
+            pair = ast.parse(groups[1][2], mode="eval").body
+            okg = isinstance(pair, (ast.List, ast.Tuple)) and len(pair.elts) == 2 and "location" in ast.unparse(pair.elts[0]) \
+                and "width" in ast.unparse(pair.elts[1])
+        except SyntaxError:
+            okg = False
+    if not okg:
+        why.append(f"labels are not the kernels' labels followed by (location, width) per change-point: {show(lab)}; groups {show(groups)}")
+    ehb = cp.methods["estimate_hyperpar_bounds"]
+    L2 = Layouts(ehb, prog, cp.module, cp)
+    b = L2.state.get("self.bounds")
+    okb = False
+    if b is not None and b is not UNKNOWN and len(b) == 2 and b[0] == ("flat", ("iter", "self.cov"), (("splice", "va0.bounds"),)):
+        tail = b[1]
+        if tail[0] == "splice" and tail[1] in L2.state:
+            tail = L2.state[tail[1]][0] if L2.state[tail[1]] is not UNKNOWN and len(L2.state[tail[1]]) == 1 else tail
+        okb = tail == ("zipflat", ("self.location_bounds", "self.width_bounds"))
+    if not okb:
+        why.append(f"bounds are not the kernels' bounds followed by interleaved (location, width) bounds: {show(b)}")
+    # logistic(x, theta): theta[0] is the location, theta[1] the width
+    lg = cp.methods["logistic"]
+    ex = Expander(prog, cp.module, cp)
+    okz = False
+    try:
+        wv = ex.run(lg.body, {lg.args.args[0].arg: R.sym("X"), lg.args.args[1].arg: R.sym("T")})
+        z = (R.sym("X") - R.sym("T[0]")).div(R.sym("T[1]"))
+        okz = wv.eq(R.const(1).div(R.const(1) + anf.exp_(-z)))
+    except Unsupported:
+        okz = False
+    if not okz:
+        why.append("logistic(x, theta) is not 1 / (1 + exp(-(x - theta[0]) / theta[1]))")
+    out.append(struct_ob("composition-order", qual(cp, psd), not why,
                          "change-point parameters must be laid out kernels first, then (location, width) per change-point, in slices, "
-                         "labels, bounds and in logistic(x, theta) (theta[0] location, theta[1] width)", COV, cp.node.lineno))
+                         "labels, bounds and in logistic(x, theta) (theta[0] location, theta[1] width): " + "; ".join(why), COV, cp.node.lineno))
     return out
 
 
@@ -425,20 +544,20 @@ def _means(prog):
         res = guard(lambda: ex.run(mg.body, {mg.args.args[1].arg: theta}))
         ok_val = isinstance(res, TupleV) and isinstance(res.items[0], R) and untag(res.items[0]).eq(vb)
         # gradient list: [ones] + rows of dx.T (+ rows of dx_sqr.T): d value / d theta_k
-        txt = U(mg)
-        if mc.name == "ConstantMean":
-            okg = "[ones(self.n_data)]" in txt
-        elif mc.name == "LinearMean":
-            okg = "grads = [ones(self.n_data)]" in txt and "grads.extend([v for v in self.dx.T])" in txt
-        else:
-            okg = ("grads = [ones(self.n_data)]" in txt and "grads.extend([v for v in self.dx.T])" in txt
-                   and "grads.extend([v for v in self.dx_sqr.T])" in txt
-                   and txt.index("self.dx.T") < txt.index("self.dx_sqr.T"))
+        Lm = Layouts(mg, prog, mc.module, mc)
+        rets_ = Lm.rz.returns()
+        glay = None
+        if len(rets_) == 1 and isinstance(rets_[0].value, ast.Tuple) and len(rets_[0].value.elts) == 2:
+            glay = Lm.layout_of(rets_[0].value.elts[1], rets_[0])
+        want_lay = {"ConstantMean": (("item", "ones(self.n_data)"),),
+                    "LinearMean": (("item", "ones(self.n_data)"), ("splice", "self.dx.T")),
+                    "QuadraticMean": (("item", "ones(self.n_data)"), ("splice", "self.dx.T"), ("splice", "self.dx_sqr.T"))}.get(mc.name)
+        okg = want_lay is not None and glay == want_lay
         # derivative check of the generic entries through the value expression
         d0 = anf.diff(vb, ("sym", "theta[0]"))
         okd = d0.eq(R.const(1))
         out.append(struct_ob("mean-gradient", qual(mc, mg), ok_val and okg and okd,
                              f"mean_and_gradients must return build_mean and, in parameter order, d mean / d theta_k "
-                             f"(1; the centred coordinates; their squares): value agrees {ok_val}; list order {okg}; d/d theta0 = {d0}",
+                             f"(1; the centred coordinates; their squares): value agrees {ok_val}; list order {okg} ({show(glay)}); d/d theta0 = {d0}",
                              MEAN, mg.lineno, tier="F"))
     return out
